@@ -80,6 +80,9 @@ def macro_chain(n):
     return list(n.get('m', [])) if isinstance(n, dict) else []
 
 
+OBJ_MACROS = set()
+
+
 def show(n, depth=0):
     """C-like rendering for diagnostics (not for matching)."""
     if n is None:
@@ -91,22 +94,22 @@ def show(n, depth=0):
     if depth > 40:
         return '...'
     d = depth + 1
+    if n.get('m') and n['m'][-1] in OBJ_MACROS and ('v' in n or k in ('IntegerLiteral', 'FloatingLiteral', 'StringLiteral')) \
+            and k != 'DeclRefExpr':
+        return n['m'][-1]
     if k == 'DeclRefExpr':
         return n['name']
     if k == 'IntegerLiteral':
-        return macro_of(n) or str(n['val'])
+        return str(n['val'])
     if k == 'FloatingLiteral':
-        return macro_of(n) or n.get('sp', str(n['val']))
+        return n.get('sp', str(n['val']))
     if k == 'StringLiteral':
-        return macro_of(n) or '"%s"' % n.get('val', '')
+        return '"%s"' % n.get('val', '')
     if k == 'CharacterLiteral':
         return repr(chr(n['val'])) if 0 <= n['val'] < 128 else str(n['val'])
     if k in ('BinaryOperator', 'CompoundAssignOperator'):
         return '(%s %s %s)' % (show(c[0], d), n['op'], show(c[1], d))
     if k == 'UnaryOperator':
-        mo = macro_of(n)
-        if mo and 'v' in n:
-            return mo
         if n.get('post'):
             return '%s%s' % (show(c[0], d), n['op'])
         return '%s%s' % (n['op'], show(c[0], d))
@@ -146,6 +149,9 @@ class Program:
                 f['rel'] = self.rel(f['file'])
                 self._fn.setdefault(f['name'], []).append(f)
         self._mv = {}
+        for name, vs in self.macros.items():
+            if all(not m['fl'] for m in vs):
+                OBJ_MACROS.add(name)
 
     def rel(self, path):
         if path.startswith(self.repo + os.sep):
